@@ -164,13 +164,21 @@ struct Machine {
     if (small && bits > 1) bits = 1 + (unsigned)ch.below(bits);
     if (mt == NTT120 && !small) bits = (unsigned)(40 + ch.below(23));
     int sparse = (int)ch.below(3);
-    for (auto& p : Z[zi].v)
+    for (auto& p : Z[zi].v) {
+      // per-limb structure (value-dependent shortcuts must see their trigger): 0-5 none, 6 the zero polynomial, 7 one coefficient
+      // only (index 0, N/2, N-1 or generated), 8 every low 32-bit half cleared (large inputs), 9 zero on the trailing part
+      const uint64_t st = ch.below(10);
+      const uint64_t keep = st == 7 ? (ch.below(4) == 0 ? 0 : ch.below(3) == 0 ? n / 2 : ch.below(2) == 0 ? n - 1 : ch.below(n)) : 0;
+      const uint64_t cut = st == 9 ? ch.below(n) : n;
       for (uint64_t q = 0; q < n; ++q) {
-        if (sparse == 2 && ch.below(8) != 0) { p[q] = 0; continue; }
+        if (st == 6 || (st == 7 && q != keep) || q > cut) { p[q] = 0; continue; }
+        if (sparse == 2 && st != 7 && ch.below(8) != 0) { p[q] = 0; continue; }
         uint64_t m = (1ull << bits) - 1;
         int64_t x = (int64_t)(ch.below(m + 1));
+        if (st == 8 && bits >= 34) x = (int64_t)((uint64_t)x & ~0xFFFFFFFFull);
         p[q] = ch.below(2) ? -x : x;
       }
+    }
     // NTT120 accepts every int64: one "large" input in two carries values at the very ends of the range (such a slot can only be
     // copied and transformed: the coefficient-space arithmetic documents |x| <= 2^62)
     bool boundary = false;
